@@ -509,6 +509,7 @@ func runC05(p *core.Prog, r *core.Report) {
 	// ------------------------------------------------------------------ R5
 	r.Guard("C05.R5", "Scheduler.Update", "message handling", func() { checkSchedulerUpdate(p, r, "C05.R5") })
 	r.Guard("C05.R1", "worker-pool", "worker slot states", func() { checkWorkerPool(p, r) })
+	r.Guard("C05.R5", "walker-protocol", "walker wake-ups", func() { checkWalkerProtocol(p, r, "C05.R5") })
 	r.Guard("C05.R4", "helpers", "merge and shadowing predicates", func() { checkSchedulerHelpers(p, r) })
 	r.MinInstances("C05.R1", 14)
 	r.MinInstances("C05.R2", 8)
